@@ -40,9 +40,12 @@ circle("c18c-if-negate-silent", "    angle = math.acos(cos_angle)\n    if dot_t2
 circle("c18c-sign-zero-fixed-silent", "    s = numpy.sign(dot_t2_t3)\n    if s == 0:\n        s = 1.0\n    angle = s * math.acos(cos_angle)\n", kind="silent")
 circle("c18c-two-atan2-silent", "    angle = math.atan2(dot_t2_t3, dot_t1_t2) if dot_t2_t3 != 0 else math.acos(cos_angle)\n", kind="silent")
 circle("c18c-asin-folded-silent", "    sin_angle = numpy.clip(dot_t2_t3 / (numpy.linalg.norm(t1) * numpy.linalg.norm(t2)), -1.0, 1.0)\n    angle = math.asin(sin_angle)\n    if cos_angle < 0:\n        angle = math.pi - angle if dot_t2_t3 >= 0 else -math.pi - angle\n", kind="silent")
-# acos of the raw dot product of the (conditionally normalised) cross products: the factor sin(theta1) sin(theta2) hides behind the
-# `v / |v| if |v| > eps else v` abstraction of the algebra - honestly undecided (exit 2), never silent
-A(M("c18c-acos-unnormalised-undecided", "C18", TT, _ATAN2, "    angle = math.copysign(math.acos(numpy.clip(dot_t1_t2, -1.0, 1.0)), dot_t2_t3)\n", kind="unrecognised"))
+# acos of the raw dot product of the cross products of unit bonds: the factor sin(theta1) sin(theta2) is not 1 (the algebra takes the
+# `v / |v| if |v| > 1e-6 else v` branch that holds on the property's domain); normalising the two normals the same way is the angle
+A(M("c18c-acos-unnormalised", "C18", TT, _ATAN2, "    angle = math.copysign(math.acos(numpy.clip(dot_t1_t2, -1.0, 1.0)), dot_t2_t3)\n", "torsion-closed-form"))
+A(M("c18c-acos-unit-normals-silent", "C18", TT, _ATAN2, "    n1 = t1 / numpy.linalg.norm(t1) if numpy.linalg.norm(t1) > 1e-6 else t1\n    n2 = t2 / numpy.linalg.norm(t2) if numpy.linalg.norm(t2) > 1e-6 else t2\n    angle = math.copysign(math.acos(numpy.clip(numpy.dot(n1, n2), -1.0, 1.0)), dot_t2_t3)\n", kind="silent"))
+# a normalisation threshold that is not tiny leaves the factor open: honestly undecided (exit 2), never silent
+A(M("c18c-acos-coarse-threshold-undecided", "C18", TT, _ATAN2, "    n1 = t1 / numpy.linalg.norm(t1) if numpy.linalg.norm(t1) > 0.5 else t1\n    n2 = t2 / numpy.linalg.norm(t2) if numpy.linalg.norm(t2) > 0.5 else t2\n    angle = math.copysign(math.acos(numpy.clip(numpy.dot(n1, n2), -1.0, 1.0)), dot_t2_t3)\n", kind="unrecognised"))
 # second implementation: the same forms keep the known sign convention (KNOWN-FINDING F18, exit 0) / lose phi = pi
 _V2 = "    angle = np.arctan2(y, x)\n"
 A(M("c18c-v2-copysign-known-silent", "C18", T2, _V2, "    angle = np.copysign(np.arccos(np.clip(x, -1.0, 1.0)), y)\n", kind="silent"))
